@@ -598,8 +598,11 @@ pub fn check(tier: &str) -> i32 {
     };
     rep.run_part(&p2, Duration::from_secs(300));
 
-    let scn = browse::Scn { prop: Prop::C04, horizon_ms: 3000, ops: browse::OPS.to_vec() };
+    let scn = browse::Scn { prop: Prop::C04, horizon_ms: 3000, ops: browse::OPS.to_vec(), host: browse::HOST_PLAIN };
     rep.run_bfs(&scn, if thorough { 4 } else { 3 }, Duration::from_secs(if thorough { 1800 } else { 40 }));
+    let scn2 = browse::Scn { prop: Prop::C04, horizon_ms: 3000, ops: browse::OPS.iter().copied().filter(|o| *o != browse::Op::VerifyI).collect(), host: browse::HOST_CAPITALS };
+    rep.run_bfs(&scn2, if thorough { 3 } else { 2 }, Duration::from_secs(if thorough { 600 } else { 30 }));
+    rep.require("browse-histories-C04-host-with-capitals", "completeness_antecedents");
     rep.require("ordered-set-partitions", "found_then_resolved");
     rep.require("single-loss-with-follow-ups", "resolved_after_loss");
     rep.require("single-loss-with-follow-ups", "followup_within_500ms");
